@@ -31,6 +31,10 @@ META = {
 }
 
 
+# lemmas over the contracts, checked by Lean 4 + Mathlib on every run (lean/Lemmas.lean, rverif/lemmas.py)
+LEMMAS = ["weak_duality", "weak_duality_eq", "soc_pairing"]
+
+
 def SOURCES():
     return {"rsome.lp:RoConstr.le_to_rc": source_info(lp.RoConstr.le_to_rc), "rsome.lp:RoConstr.forall": source_info(lp.RoConstr.forall),
             "rsome.lp:DecRule.to_affine": source_info(lp.DecRule.to_affine), "rsome.lp:DecRule.adapt": source_info(lp.DecRule.adapt),
